@@ -245,6 +245,7 @@ func c12feed(c *core.Check) {
 	c12nameStorage(c)
 	c12discardLineage(c)
 	c12namedPatch(c)
+	c12replacerAdd(c)
 	fd := c.Prog.FuncDecl("generator", "FileManager.Feed")
 	key := "generator.(FileManager).Feed"
 	if fd == nil {
